@@ -21,6 +21,7 @@ import (
 type scUnit struct {
 	B int `json:"b"`
 	E int `json:"e"`
+	C int `json:"c"` // 1: the "event" is a comment-only block (a heartbeat): a token for the scanner, no event for the callbacks
 }
 
 type scBeh struct {
@@ -67,6 +68,10 @@ func (b *scBeh) bytes(style string) (s string, ends []int) {
 	var sb strings.Builder
 	for i, u := range b.Stream.Units {
 		sb.WriteString(blank(u.B))
+		if u.C == 1 {
+			sb.WriteString(":" + strings.Repeat("k", u.E-1-2*len(nl)) + nl + nl)
+			continue
+		}
 		if i == 0 && b.withKey() {
 			// the first event carries an ID that every later event must still report intact
 			sb.WriteString("id:KEY0" + nl + "data:")
@@ -90,7 +95,38 @@ func (b *scBeh) bytes(style string) (s string, ends []int) {
 	return sb.String(), ends
 }
 
-func (b *scBeh) withKey() bool { return len(b.Stream.Units) > 0 && b.Stream.Units[0].E >= 24 }
+func (b *scBeh) withKey() bool {
+	return len(b.Stream.Units) > 0 && b.Stream.Units[0].E >= 24 && b.Stream.Units[0].C == 0
+}
+
+// eventUnits lists the units that carry an event (heartbeats do not), and how many of the first n units do
+func (b *scBeh) eventUnits() (idx []int) {
+	for i, u := range b.Stream.Units {
+		if u.C == 0 {
+			idx = append(idx, i)
+		}
+	}
+	return
+}
+
+func (b *scBeh) eventsAmong(n int) int {
+	k := 0
+	for i, u := range b.Stream.Units {
+		if i < n && u.C == 0 {
+			k++
+		}
+	}
+	return k
+}
+
+func (b *scBeh) unitsStr() string {
+	if len(b.Stream.Units) <= 12 {
+		return fmt.Sprint(b.Stream.Units)
+	}
+	return fmt.Sprintf("%v ... (%d units, %d of them heartbeats)", b.Stream.Units[:4], len(b.Stream.Units), len(b.Stream.Units)-len(b.eventUnits()))
+}
+
+func (b *scBeh) hasHeartbeats() bool { return len(b.eventUnits()) != len(b.Stream.Units) }
 
 // payload lengths of the delivered events for a style (see bytes)
 func (b *scBeh) wantData(style string, i int) (string, bool) {
@@ -103,13 +139,14 @@ func (b *scBeh) wantData(style string, i int) (string, bool) {
 	if t := b.Stream.Tail; (t.Kind == "line" || t.Kind == "event") && t.N < nl+6 {
 		nl = 1
 	}
+	eu := b.eventUnits()
 	switch {
-	case i < len(b.Stream.Units):
-		if i == 0 && b.withKey() {
-			return strings.Repeat("a", b.Stream.Units[i].E-12-3*nl), true
+	case i < len(eu):
+		if eu[i] == 0 && b.withKey() {
+			return strings.Repeat("a", b.Stream.Units[eu[i]].E-12-3*nl), true
 		}
-		return strings.Repeat("a", b.Stream.Units[i].E-5-2*nl), true
-	case i == len(b.Stream.Units) && b.Stream.Tail.Kind == "event":
+		return strings.Repeat("a", b.Stream.Units[eu[i]].E-5-2*nl), true
+	case i == len(eu) && b.Stream.Tail.Kind == "event":
 		return strings.Repeat("a", b.Stream.Tail.N-5-nl), true
 	}
 	return "", false
@@ -248,13 +285,13 @@ func cmdScan(args []string) {
 				res.eval(1)
 				d := map[string]any{"driver": "scan", "behaviour": b, "chunking": cname, "eof_with_data": eofWith, "got_events": len(evs), "got_err": fmt.Sprint(err),
 					"read_ahead": rd.worst, "stream_bytes": len(stream)}
-				what := fmt.Sprintf("%s limit=%d (cap %d, max %d) units=%v tail=%s/%d chunking=%s line ends=%s", b.Cfg.Entry, b.Limit, b.Cfg.InitCap, b.Cfg.Max, b.Stream.Units, b.Stream.Tail.Kind, b.Stream.Tail.N, cname, style)
+				what := fmt.Sprintf("%s limit=%d (cap %d, max %d) units=%v tail=%s/%d chunking=%s line ends=%s", b.Cfg.Entry, b.Limit, b.Cfg.InitCap, b.Cfg.Max, b.unitsStr(), b.Stream.Tail.Kind, b.Stream.Tail.N, cname, style)
 				if pn != nil {
 					res.violate(fmt.Sprintf("panic: %v  [%s]", pn, what), "scan:panic", d)
 					continue
 				}
 				// 1. memory: never more than the limit beyond the last completed event
-				if rd.worst > b.Limit {
+				if rd.worst > b.Limit && !b.hasHeartbeats() { // (consumed heartbeats are not observable from outside)
 					res.violate(fmt.Sprintf("read %d bytes beyond the last delivered event, limit %d  [%s]", rd.worst, b.Limit, what), "scan:readahead", d)
 				}
 				// 2. every delivered event is intact and is the next unit's event: never a truncated one
@@ -280,7 +317,7 @@ func cmdScan(args []string) {
 				// 3. the spec's verdict: complete delivery below the limit, ErrTooLong at the first oversized unit
 				switch b.Status {
 				case "eof":
-					wantN := b.Delivered
+					wantN := b.eventsAmong(b.Delivered)
 					var wantErr error
 					switch b.Stream.Tail.Kind {
 					case "event":
@@ -301,8 +338,8 @@ func cmdScan(args []string) {
 					if !errors.Is(err, bufio.ErrTooLong) {
 						res.violate(fmt.Sprintf("ended with %v, spec: ErrTooLong at unit %d  [%s]", err, b.Delivered+1, what), "scan:end", d)
 					}
-					if len(evs) != b.Delivered {
-						res.violate(fmt.Sprintf("%d events delivered before the oversized unit, spec: %d  [%s]", len(evs), b.Delivered, what), "scan:incomplete", d)
+					if len(evs) != b.eventsAmong(b.Delivered) {
+						res.violate(fmt.Sprintf("%d events delivered before the oversized unit, spec: %d  [%s]", len(evs), b.eventsAmong(b.Delivered), what), "scan:incomplete", d)
 					}
 				}
 				if cname == "policy" && !eofWith && rd.maxReq != b.MaxReq {
